@@ -11,6 +11,7 @@ import random
 from decimal import Decimal, getcontext
 
 from ..common import Result, sut, digest
+from ..interfere import interfere
 
 getcontext().prec = 50
 
@@ -247,7 +248,11 @@ def run_history(res, seed):
         objs.append((d2, [x], make(res, d2, [x], "keyword")))
     res.count("history_callables", len(objs))
     exact = {}
-    for _ in range(90):
+    for it in range(90):
+        if it % 15 == 7:
+            # other features of the library used in between (loaders that sample, other factories): whatever process-wide state they
+            # touch (numpy's floating-point error mode, ...) is part of the history
+            interfere(rng, None, res, only=("sampled JointDegreeMarginal", "distribution factories", "split-degree loaders", "bond_percolate"), k=2)
         dist, par, p = rng.choice(objs)
         k = rng.randint(0 if dist in ("exponential", "poisson") else 1, 40)
         if dist == "exponential" and rng.random() < 0.25:
